@@ -29,12 +29,14 @@ package obiformats
 // byte of the fault-free output of the same history reached the sink and Close did not fail.
 
 import (
-	"bytes"
+	"bufio"
 	"encoding/json"
 	"errors"
 	"fmt"
+	"hash/fnv"
 	"io"
 	"os"
+	"os/exec"
 	"runtime"
 	"sort"
 	"strings"
@@ -220,8 +222,9 @@ var c18dataCache = map[string][]*obiseq.BioSequence{}
 //	M  about three buffers, each record a little larger than one buffer
 //	L  one record larger than 64 KiB between two small ones
 //	G  one record larger than the 1 MiB block of the parallel gzip writer (gzip only)
-func c18dataset(name string) []*obiseq.BioSequence {
-	if d, ok := c18dataCache[name]; ok {
+func c18dataset(name string, qual bool) []*obiseq.BioSequence {
+	key := fmt.Sprintf("%s/%v", name, qual)
+	if d, ok := c18dataCache[key]; ok {
 		return d
 	}
 	var lens []int
@@ -241,20 +244,22 @@ func c18dataset(name string) []*obiseq.BioSequence {
 	for i, l := range lens {
 		seq := c18dna(l, uint32(i+1)*uint32(len(name)+7))
 		s := obiseq.NewBioSequence(fmt.Sprintf("%s%d", strings.ToLower(name), i+1), seq, "")
-		q := make(obiseq.Quality, l)
-		for j := range q {
-			q[j] = uint8(20 + (j*7+i)%20)
+		if qual {
+			q := make(obiseq.Quality, l)
+			for j := range q {
+				q[j] = uint8(20 + (j*7+i)%20)
+			}
+			s.SetQualities(q)
 		}
-		s.SetQualities(q)
 		s.SetAttribute("count", i+2)
 		out = append(out, s)
 	}
-	c18dataCache[name] = out
+	c18dataCache[key] = out
 	return out
 }
 
 func c18batches(c c18case) []obiiter.BioSequenceBatch {
-	data := c18dataset(c.Data)
+	data := c18dataset(c.Data, c.Writer == "fastq") // qualities only where the format carries them
 	var out []obiiter.BioSequenceBatch
 	p := 0
 	for i, n := range c.Split {
@@ -272,20 +277,35 @@ func c18batches(c c18case) []obiiter.BioSequenceBatch {
 // ---------------------------------------------------------------- running one case on the real code
 
 type c18outcome struct {
-	hung       bool // deadlocked
-	gaveUp     bool // still running after c18activeCap (no verdict)
-	exited     bool
-	code       int
-	nexit      int
-	content    []byte
-	ends       []int
-	ops        int
-	fired      bool
-	firedWrite int
-	phase      string
-	closeCalls int
-	closeFail  bool
+	Hung       bool   `json:"hung"`    // deadlocked
+	GaveUp     bool   `json:"gaveup"`  // still running after c18activeCap (no verdict)
+	Exited     bool   `json:"exited"`  // an exit was raised (first one recorded)
+	Code       int    `json:"code"`
+	NExit      int    `json:"nexit"`
+	N          int    `json:"n"`       // bytes that reached the sink
+	H          uint64 `json:"h"`       // FNV-1a of these bytes
+	Ends       []int  `json:"ends,omitempty"`
+	Ops        int    `json:"ops"`
+	Fired      bool   `json:"fired"`
+	FiredWrite int    `json:"fw"`
+	Phase      string `json:"phase"`
+	CloseCalls int    `json:"cc"`
+	CloseFail  bool   `json:"cf"`
+	RSS        int64  `json:"rss,omitempty"` // child mode: resident set of the child
 }
+
+type c18ref struct {
+	n    int
+	h    uint64
+	ends []int
+}
+
+func c18hash(b []byte) uint64 {
+	h := fnv.New64a()
+	h.Write(b)
+	return h.Sum64()
+}
+
 
 // c18wait waits for the end of a case. A case is declared hung only when it is DEADLOCKED: two
 // goroutine dumps taken 3 s apart in which no goroutine (other than the watchdog and the runtime's
@@ -394,7 +414,7 @@ func c18run(c c18case, record bool) c18outcome {
 		case "json":
 			out, err = WriteJSON(in, sink, opts...)
 		case "csv":
-			out, err = WriteCSV(in, sink, append(opts, CSVCount(true), CSVQuality(true))...)
+			out, err = WriteCSV(in, sink, append(opts, CSVCount(true))...)
 		default:
 			panic("c18: unknown writer " + c.Writer)
 		}
@@ -411,14 +431,14 @@ func c18run(c c18case, record bool) c18outcome {
 		obiiter.WaitForLastPipe() // what every main does before returning (exit 0)
 	}()
 	var o c18outcome
-	o.hung, o.gaveUp = c18wait(done, c)
-	o.exited, o.code, o.nexit = c18exit.get()
+	o.Hung, o.GaveUp = c18wait(done, c)
+	o.Exited, o.Code, o.NExit = c18exit.get()
 	sink.mu.Lock()
-	o.content = sink.buf
-	o.ends = sink.ends
-	o.ops = sink.ops
-	o.fired, o.firedWrite, o.phase = sink.fired, sink.firedWrite, sink.firedPhase
-	o.closeCalls, o.closeFail = sink.closeCalls, sink.closeFail
+	o.N, o.H = len(sink.buf), c18hash(sink.buf)
+	o.Ends = sink.ends
+	o.Ops = sink.ops
+	o.Fired, o.FiredWrite, o.Phase = sink.fired, sink.firedWrite, sink.firedPhase
+	o.CloseCalls, o.CloseFail = sink.closeCalls, sink.closeFail
 	sink.mu.Unlock()
 	return o
 }
@@ -440,24 +460,24 @@ func c18drainPos(arrival []int, i int) bool {
 }
 
 // c18judge applies the oracle. key == "" : the property holds on this case.
-func c18judge(c c18case, ref []byte, o c18outcome) (key, desc string) {
-	what := fmt.Sprintf("%s fault=%s@%d of %d bytes", c.hist(), c.Fault, c.K, len(ref))
-	if o.hung {
+func c18judge(c c18case, ref c18ref, o c18outcome) (key, desc string) {
+	what := fmt.Sprintf("%s fault=%s@%d of %d bytes", c.hist(), c.Fault, c.K, ref.n)
+	if o.Hung {
 		return c.target() + "/hang", what + ": the writer pipeline did not finish and no exit was recorded within the watchdog delay"
 	}
-	if o.exited && o.code != 0 {
+	if o.Exited && o.Code != 0 {
 		return "", ""
 	}
-	complete := bytes.Equal(o.content, ref)
-	if complete && !o.closeFail {
+	complete := o.N == ref.n && o.H == ref.h
+	if complete && !o.CloseFail {
 		return "", ""
 	}
-	phase := o.phase
+	phase := o.Phase
 	if phase == "" {
 		phase = "nofault"
 	}
 	if c.Writer == "chunk" && phase == "write" {
-		if c18drainPos(c.Arrival, o.firedWrite) {
+		if c18drainPos(c.Arrival, o.FiredWrite) {
 			phase = "drain-write"
 		} else {
 			phase = "main-write"
@@ -467,18 +487,18 @@ func c18judge(c c18case, ref []byte, o c18outcome) (key, desc string) {
 		phase = "write" // the parallel gzip writer emits nearly everything while it is being closed
 	}
 	st := "no exit was raised before WaitForLastPipe returned (exit status 0)"
-	if o.exited {
+	if o.Exited {
 		st = "exit code 0 was raised"
 	}
-	lost := fmt.Sprintf("%d of %d bytes reached the output", len(o.content), len(ref))
-	if len(o.content) == len(ref) && !complete {
+	lost := fmt.Sprintf("%d of %d bytes reached the output", o.N, ref.n)
+	if o.N == ref.n && !complete {
 		lost = "the bytes that reached the output differ from the result"
 	}
-	if o.closeFail {
+	if o.CloseFail {
 		lost += ", Close returned an error"
 	}
 	return fmt.Sprintf("%s/%s/silent-success", c.target(), phase),
-		fmt.Sprintf("%s: failing sink operation #%d (%s); %s but %s", what, o.firedWrite, phase, lost, st)
+		fmt.Sprintf("%s: failing sink operation #%d (%s); %s but %s", what, o.FiredWrite, phase, lost, st)
 }
 
 // ---------------------------------------------------------------- enumeration
@@ -522,74 +542,211 @@ func c18offsets(total int, ends []int, all bool, stride int) []int {
 	return out
 }
 
+// ---------------------------------------------------------------- child processes for gzip cases
+//
+// The parallel gzip writer (klauspost/pgzip) never stops its result-listener goroutine when Close
+// gives up on an error: each gzip case whose fault fires leaves one goroutine and a 1 MiB block
+// buffer behind (harmless for a command that exits, fatal for 10^5 cases in one process). Gzip
+// cases are therefore executed by a child process (this test binary, C18_CHILD=1) that is replaced
+// as soon as its resident set exceeds c18childRSS. The child runs exactly the same c18run.
+
+const c18childRSS = 128 << 20
+const c18marker = "C18OUT "
+
+func c18rss() int64 {
+	b, err := os.ReadFile("/proc/self/statm")
+	if err != nil {
+		return 0
+	}
+	f := strings.Fields(string(b))
+	if len(f) < 2 {
+		return 0
+	}
+	var pages int64
+	fmt.Sscan(f[1], &pages)
+	return pages * int64(os.Getpagesize())
+}
+
+func c18childMain() {
+	in := bufio.NewReaderSize(os.Stdin, 1<<16)
+	out := bufio.NewWriter(os.Stdout)
+	for {
+		line, err := in.ReadBytes('\n')
+		if len(line) > 1 {
+			var c c18case
+			if e := json.Unmarshal(line, &c); e != nil {
+				fmt.Fprintf(os.Stderr, "c18 child: bad case %q: %v\n", line, e)
+				os.Exit(3)
+			}
+			o := c18run(c, c.Fault == "none")
+			o.RSS = c18rss()
+			b, _ := json.Marshal(o)
+			out.WriteString(c18marker)
+			out.Write(b)
+			out.WriteByte('\n')
+			out.Flush()
+			if o.Hung || o.GaveUp {
+				os.Exit(0) // the pipe WaitGroup of this process is no longer balanced
+			}
+		}
+		if err != nil {
+			return
+		}
+	}
+}
+
+type c18child struct {
+	cmd   *exec.Cmd
+	stdin io.WriteCloser
+	out   *bufio.Reader
+	n     int
+}
+
+func (ch *c18child) stop() {
+	if ch.cmd == nil {
+		return
+	}
+	ch.stdin.Close()
+	done := make(chan struct{})
+	go func() { ch.cmd.Wait(); close(done) }()
+	select {
+	case <-done:
+	case <-time.After(30 * time.Second):
+		ch.cmd.Process.Kill()
+		<-done
+	}
+	ch.cmd = nil
+}
+
+func (ch *c18child) run(c c18case) (c18outcome, error) {
+	if ch.cmd == nil {
+		cmd := exec.Command(os.Args[0], "-test.run", "^TestVerifC18$", "-test.count=1", "-test.timeout", "0")
+		cmd.Env = append(os.Environ(), "C18_CHILD=1", "VERIF_OUT=/dev/null", "VERIF_REPLAY=")
+		cmd.Stderr = os.Stderr
+		stdin, err := cmd.StdinPipe()
+		if err != nil {
+			return c18outcome{}, err
+		}
+		stdout, err := cmd.StdoutPipe()
+		if err != nil {
+			return c18outcome{}, err
+		}
+		if err := cmd.Start(); err != nil {
+			return c18outcome{}, err
+		}
+		ch.cmd, ch.stdin, ch.out, ch.n = cmd, stdin, bufio.NewReaderSize(stdout, 1<<16), 0
+	}
+	b, _ := json.Marshal(c)
+	if _, err := ch.stdin.Write(append(b, '\n')); err != nil {
+		ch.stop()
+		return c18outcome{}, fmt.Errorf("child does not accept cases: %v", err)
+	}
+	for {
+		line, err := ch.out.ReadString('\n')
+		if strings.HasPrefix(line, c18marker) {
+			var o c18outcome
+			if e := json.Unmarshal([]byte(line[len(c18marker):]), &o); e != nil {
+				ch.stop()
+				return o, e
+			}
+			ch.n++
+			if o.RSS > c18childRSS || o.Hung || o.GaveUp {
+				ch.stop()
+			}
+			return o, nil
+		}
+		if err != nil {
+			ch.stop()
+			return c18outcome{}, fmt.Errorf("child ended without an answer for %s fault=%s@%d: %v", c.hist(), c.Fault, c.K, err)
+		}
+	}
+}
+
 func TestVerifC18(t *testing.T) {
 	log.SetOutput(io.Discard)
 	log.StandardLogger().ExitFunc = func(code int) { c18exit.record(code) }
+	if os.Getenv("C18_CHILD") != "" {
+		c18childMain()
+		return
+	}
 	r := verifkit.New("C18")
 	defer r.Write()
 	r.RequireNonVacuous("fault_fired")
 	r.RequireNonVacuous("exit_recorded_nonzero")
 
+	child := &c18child{}
+	defer child.stop()
+	replaying := r.ReplayCase() != nil
+
 	poisoned := false
-	eval := func(c c18case, ref []byte) {
+	eval := func(c c18case, ref c18ref) {
 		if poisoned {
 			return
 		}
-		o := c18run(c, false)
-		r.Eval(1)
-		r.Trans(int64(o.ops))
-		if o.hung || o.gaveUp {
-			// the global pipe WaitGroup of obiiter is no longer balanced: nothing more can be
-			// decided in this process
-			poisoned = true
-			r.Cap("a case did not finish: remaining cases of this shard skipped")
-			if o.gaveUp {
-				return
+		var o c18outcome
+		if c.Gzip && !replaying {
+			var err error
+			if o, err = child.run(c); err != nil {
+				t.Fatalf("c18: %v", err)
+			}
+			r.Count("cases_run_in_child_process", 1)
+		} else {
+			o = c18run(c, false)
+			if o.Hung || o.GaveUp {
+				// the global pipe WaitGroup of obiiter is no longer balanced: nothing more can
+				// be decided in this process
+				poisoned = true
+				r.Cap("a case did not finish: remaining cases of this shard skipped")
 			}
 		}
-		if o.fired {
+		r.Eval(1)
+		r.Trans(int64(o.Ops))
+		if o.GaveUp {
+			r.Cap("a case was still running after 20 minutes (no verdict)")
+			return
+		}
+		if o.Fired {
 			r.Count("fault_fired", 1)
-			r.Count("fault_fired_phase_"+o.phase, 1)
+			r.Count("fault_fired_phase_"+o.Phase, 1)
 		} else {
 			r.Count("fault_not_reached", 1)
 		}
-		if o.exited && o.code != 0 {
+		if o.Exited && o.Code != 0 {
 			r.Count("exit_recorded_nonzero", 1)
-			if !o.fired {
+			if !o.Fired {
 				r.Count("exit_without_fault", 1)
 			}
 		}
-		if c.Writer == "chunk" && o.fired && o.phase == "write" && c18drainPos(c.Arrival, o.firedWrite) {
+		if c.Writer == "chunk" && o.Fired && o.Phase == "write" && c18drainPos(c.Arrival, o.FiredWrite) {
 			r.Count("fault_fired_in_drain_loop_chunkwriter", 1)
 		}
-		r.State(fmt.Sprintf("%s|%s|%d|%v|%d|%v|%v", c.hist(), c.Fault, len(o.content), o.exited, o.code, o.closeFail, o.phase))
+		r.State(fmt.Sprintf("%s|%s|%d|%v|%d|%v|%v", c.hist(), c.Fault, o.N, o.Exited, o.Code, o.CloseFail, o.Phase))
 		key, desc := c18judge(c, ref, o)
 		if key != "" {
 			r.Violate(key, desc, c)
 		}
 	}
 
-	reference := func(h c18hist) ([]byte, []int) {
+	reference := func(h c18hist) c18ref {
 		c := c18case{Writer: h.writer, Gzip: h.gz, Data: h.data, Split: h.split, Arrival: h.arrival, Fault: "none"}
 		o := c18run(c, true)
-		if o.hung || o.gaveUp || o.exited || o.closeCalls == 0 || len(o.content) == 0 {
+		if o.Hung || o.GaveUp || o.Exited || o.CloseCalls == 0 || o.N == 0 {
 			t.Fatalf("c18: fault-free run of %s is not usable as reference (hung=%v exit=%v/%d close calls=%d bytes=%d)",
-				c.hist(), o.hung, o.exited, o.code, o.closeCalls, len(o.content))
+				c.hist(), o.Hung, o.Exited, o.Code, o.CloseCalls, o.N)
 		}
 		o2 := c18run(c, true)
-		if !bytes.Equal(o.content, o2.content) {
+		if o.N != o2.N || o.H != o2.H {
 			t.Fatalf("c18: fault-free output of %s is not deterministic", c.hist())
 		}
-		return o.content, o.ends
+		return c18ref{o.N, o.H, o.Ends}
 	}
 
-	if rc := r.ReplayCase(); rc != nil {
+	if replaying {
 		var c c18case
-		if err := json.Unmarshal(rc, &c); err != nil {
+		if err := json.Unmarshal(r.ReplayCase(), &c); err != nil {
 			t.Fatal(err)
 		}
-		ref, _ := reference(c18hist{c.Writer, c.Gzip, c.Data, c.Split, c.Arrival})
-		eval(c, ref)
+		eval(c, reference(c18hist{c.Writer, c.Gzip, c.Data, c.Split, c.Arrival}))
 		return
 	}
 
@@ -683,23 +840,10 @@ func TestVerifC18(t *testing.T) {
 					if !pl.all && coveredAll[hh.String()] {
 						continue // every offset of this history is enumerated by another plan
 					}
-					// does this shard own any case of the history? (the reference run is only
-					// needed then); offsets are not known before the reference run, so the
-					// reference is computed lazily.
-					var ref []byte
-					var ends []int
-					have := false
-					get := func() {
-						if !have {
-							ref, ends = reference(hh)
-							have = true
-							r.Count("reference_runs", 1)
-						}
-					}
-					// the number of offsets depends on the reference length, which every shard
-					// needs to keep the work item numbering identical: compute it.
-					get()
-					offs := c18offsets(len(ref), ends, pl.all, pl.stride)
+					// every shard needs the reference: the work item numbering depends on its length
+					ref := reference(hh)
+					r.Count("reference_runs", 1)
+					offs := c18offsets(ref.n, ref.ends, pl.all, pl.stride)
 					mk := func(f string, kk int) c18case {
 						return c18case{Writer: w, Gzip: gz, Data: pl.data, Split: h.split, Arrival: h.arrival, Fault: f, K: kk}
 					}
@@ -710,7 +854,7 @@ func TestVerifC18(t *testing.T) {
 					for _, off := range offs {
 						if r.Mine(k) {
 							eval(mk("persist", off), ref)
-							if off < len(ref) {
+							if off < ref.n {
 								eval(mk("oneshot", off), ref)
 							}
 						}
